@@ -29,10 +29,13 @@ enum Pred {
     Accept,
     Reject,
     ByKind,
+    /// stateful: accepts its 1st, 3rd, 5th ... evaluation and refuses the others (a fallback
+    /// budget, a sampler): the layer must ask exactly once per inner error
+    Alternating,
 }
 
 const STRATS: [Strat; 7] = [Strat::Value, Strat::ValueFn, Strat::FromError, Strat::FromRequestError, Strat::ServiceOk, Strat::ServiceFailing, Strat::Exception];
-const PREDS: [Pred; 4] = [Pred::None, Pred::Accept, Pred::Reject, Pred::ByKind];
+const PREDS: [Pred; 5] = [Pred::None, Pred::Accept, Pred::Reject, Pred::ByKind, Pred::Alternating];
 
 #[derive(Debug, Clone, PartialEq)]
 enum Res {
@@ -41,20 +44,21 @@ enum Res {
     FallbackFailed(InnerErr),
 }
 
-fn handled(p: Pred, e: &InnerErr) -> bool {
+fn handled(p: Pred, e: &InnerErr, errs_before: u32) -> bool {
     match p {
         Pred::None | Pred::Accept => true,
         Pred::Reject => false,
         Pred::ByKind => e.kind == 0,
+        Pred::Alternating => errs_before % 2 == 0,
     }
 }
 
 /// pure reference: what the layer must return for (strategy, predicate, request, inner outcome)
-fn reference(s: Strat, p: Pred, req: &Req, inner: &Result<Resp, InnerErr>, value_fn_calls_before: u32) -> (Res, u32 /*value_fn calls*/, u32 /*backup calls*/) {
+fn reference(s: Strat, p: Pred, req: &Req, inner: &Result<Resp, InnerErr>, value_fn_calls_before: u32, errs_before: u32) -> (Res, u32 /*value_fn calls*/, u32 /*backup calls*/) {
     match inner {
         Ok(r) => (Res::Ok(r.clone()), 0, 0),
         Err(e) => {
-            if !handled(p, e) {
+            if !handled(p, e, errs_before) {
                 return (Res::Inner(e.clone()), 0, 0);
             }
             match s {
@@ -102,6 +106,8 @@ fn main() {
                     }
                 }
                 let value_fn_calls = Arc::new(AtomicU32::new(0));
+                let pred_evals = Arc::new(AtomicU32::new(0));
+                let mut errs_seen = 0u32;
                 let backup_log: Arc<Mutex<Vec<Req>>> = Arc::new(Mutex::new(vec![]));
                 let mut b = FallbackLayer::<Req, Resp, InnerErr>::builder();
                 // the builder calls are issued in both orders: predicate before / after the strategy
@@ -111,6 +117,10 @@ fn main() {
                     Pred::Accept => b.handle(|_e: &InnerErr| true),
                     Pred::Reject => b.handle(|_e: &InnerErr| false),
                     Pred::ByKind => b.handle(|e: &InnerErr| e.kind == 0),
+                    Pred::Alternating => {
+                        let c = pred_evals.clone();
+                        b.handle(move |_e: &InnerErr| c.fetch_add(1, Ordering::SeqCst) % 2 == 0)
+                    }
                     };
                 }
                 b = match s {
@@ -143,6 +153,10 @@ fn main() {
                     Pred::Accept => b.handle(|_e: &InnerErr| true),
                     Pred::Reject => b.handle(|_e: &InnerErr| false),
                     Pred::ByKind => b.handle(|e: &InnerErr| e.kind == 0),
+                    Pred::Alternating => {
+                        let c = pred_evals.clone();
+                        b.handle(move |_e: &InnerErr| c.fetch_add(1, Ordering::SeqCst) % 2 == 0)
+                    }
                     };
                 }
                 let events = Arc::new(AtomicU32::new(0));
@@ -153,7 +167,7 @@ fn main() {
                     });
                 }
                 let layer = b.build();
-                let mut svc = layer.layer(GatedInner::new(w.inner.clone()));
+                let mut svc = if predicate_first { layer.clone().layer(GatedInner::new(w.inner.clone())) } else { layer.layer(GatedInner::new(w.inner.clone())) };
                 let mut clone = svc.clone();
                 let mut vf_expected = 0u32;
                 let mut backup_expected: Vec<Req> = vec![];
@@ -180,7 +194,10 @@ fn main() {
                         other => panic!("inner call ended {other:?}"),
                     };
                     drop(g);
-                    let (want, vf, bk) = reference(s, p, &req, &inner_res, vf_expected);
+                    let (want, vf, bk) = reference(s, p, &req, &inner_res, vf_expected, errs_seen);
+                    if inner_res.is_err() {
+                        errs_seen += 1;
+                    }
                     vf_expected += vf;
                     if bk == 1 {
                         backup_expected.push(req.clone());
@@ -207,7 +224,7 @@ fn main() {
                         let kind = match (&inner_res, &got_n) {
                             (Ok(_), _) => "success_replaced",
                             (Err(e), Res::Inner(e2)) if e == e2 => "error_not_handled",
-                            (Err(e), _) if !handled(p, e) => "refused_error_handled",
+                            (Err(e), _) if !handled(p, e, errs_seen.saturating_sub(1)) => "refused_error_handled",
                             _ => "wrong_fallback_result",
                         };
                         viols.push((kind.into(), format!("inner outcome {:?}, expected {:?}, got {:?}", inner_res, want, got_n)));
